@@ -253,7 +253,9 @@ ReachedR(c) == /\ c.nHooks >= 1 /\ (c.nHooks > 1 => AnyRolling) /\ c.allOK /\ ~c
 \* last-applied equals desired, and every desired field/label is present with that value
 LAOf(d) == [p \in { q \in DOMAIN d.fields : TRUE } |-> d.fields[p]]
 SameAsDesired(o, d) ==
-  /\ d.owners = <<>> /\ d.fins = <<>> /\ ~d.hasLA /\ d.rv = 0 /\ d.uid = ""     \* (the hook says nothing about metadata the merge treats specially)
+  \* (the hook says nothing about metadata the merge treats specially; a last-applied annotation handed back inside the
+  \* desired child is not part of the desired state: it is dropped before merging and recording)
+  /\ d.owners = <<>> /\ d.fins = <<>> /\ d.rv = 0 /\ d.uid = ""
   /\ SubFn(d.fields, o.fields) /\ SubFn(d.labels, o.labels) /\ SubFn(d.ann, o.ann)
   /\ o.hasLA
   /\ \A p \in DOMAIN d.fields : p \in DOMAIN o.la /\ o.la[p] = d.fields[p]
@@ -263,6 +265,8 @@ SameAsDesired(o, d) ==
                             \/ \E ak \in DOMAIN d.ann : p = "metadata.annotations." \o ak
   /\ \A lk \in DOMAIN d.labels : ("metadata.labels." \o lk) \in DOMAIN o.la
   /\ (d.ns = "" <=> "metadata.namespace" \notin DOMAIN o.la)
+  \* a desired child that carried nothing but the last-applied annotation is recorded with an EMPTY annotations map
+  /\ (d.hasLA /\ d.ann = <<>>) => "metadata.annotations" \in DOMAIN o.la
 DiffersInOwned(o, d) == ~SubFn(d.fields, o.fields) \/ ~SubFn(d.labels, o.labels)
 
 \* =======================================================================================
@@ -627,6 +631,13 @@ MovedNeeding(c) == { n \in DesNames(c) : ~OnLatestBefore(c, n) /\ ClaimVals(c.st
                                           /\ OnLatestAfter(c, n) /\ ~UpToDateK(c, n) }
 Needing(c) == { n \in DesNames(c) : ~OnLatestBefore(c, n) /\ ClaimVals(c.store0, c.parent.uid, "Thing", n) # {} /\ ~UpToDateK(c, n) }
 RollEnd == IsEv("SyncEnd") /\ E.a \in DOMAIN ctx /\ ctx[E.a].active /\ HasLatest(ctx[E.a]) /\ E.result = "ok" /\ ctx[E.a].failedReqs = <<>> /\ ctx[E.a].fresh
+\* the latest revision's desired state is computed from the parent AS IT IS: one of the per-revision hook calls of a
+\* rolling sync is about the very parent the sync works on (the others about patched copies)
+C07_LatestAsIs ==
+  (IsEv("SyncEnd") /\ IsComposite /\ AnyRolling /\ E.a \in DOMAIN ctx /\ ctx[E.a].active /\ ctx[E.a].nHooks >= 1 /\ ctx[E.a].allOK)
+  => \/ \E i \in DOMAIN ctx[E.a].hookSeq : ctx[E.a].hookSeq[i].parent.fields = ctx[E.a].parent.fields
+     \/ Report("C07", "C07_LatestAsIs", <<"no hook call was about the parent as it is", ctx[E.a].parent.fields,
+                                           [i \in DOMAIN ctx[E.a].hookSeq |-> ctx[E.a].hookSeq[i].parent.fields]>>)
 C07_OneMove ==
   RollEnd => (Cardinality(MovedNeeding(ctx[E.a])) <= 1 \/ Report("C07", "C07_OneMove", <<"moved", MovedNeeding(ctx[E.a])>>))
 C07_HookOrder ==
